@@ -42,6 +42,7 @@ type SpecFunc struct {
 	Params []SpecParam
 	Result string // type text
 	Body   Expr   // nil: uninterpreted
+	Opaque bool   // uninterpreted symbol plus a global definitional axiom (keeps nested quantifiers out of use sites)
 	Pos    string
 	Pkg    interface{} // *types.Package of the defining file
 }
@@ -584,6 +585,11 @@ func parseContractFile(path string) (*ContractFile, error) {
 		case "spec":
 			// spec func name(a T, b T) R = expr   | spec func name(a T) R   (uninterpreted)
 			r := strings.TrimSpace(strings.TrimPrefix(rest, "func"))
+			opaque := false
+			if strings.HasPrefix(r, "opaque ") {
+				opaque = true
+				r = strings.TrimSpace(r[len("opaque "):])
+			}
 			open := strings.Index(r, "(")
 			if open < 0 {
 				return nil, fail(ln.n, "spec func: expected (")
@@ -592,7 +598,7 @@ func parseContractFile(path string) (*ContractFile, error) {
 			if closeIdx < 0 {
 				return nil, fail(ln.n, "spec func: unbalanced")
 			}
-			sf := &SpecFunc{Name: strings.TrimSpace(r[:open]), Pos: pos}
+			sf := &SpecFunc{Name: strings.TrimSpace(r[:open]), Pos: pos, Opaque: opaque}
 			for _, ps := range splitTop(r[open+1:closeIdx], ',') {
 				ps = strings.TrimSpace(ps)
 				if ps == "" {
